@@ -1,4 +1,1022 @@
-//! C30: not built yet.
-use crate::util::Ctx;
+//! C30 — Names and nodes are memory-safe shared values.
+//!
+//! Operation histories over a small pool of slots are run on the REAL `Name` / `Arc<str>` / `Node<T>`
+//! values.  After every step the harness observes, through public API only, every slot
+//! (`as_str`, `location`, `as_static_str`, `to_cloned_arc`, `Node::{ptr_eq, get_mut, location}`) and the
+//! strong count of every string allocation through a `Weak<str>` witness (taken with `to_cloned_arc` /
+//! `Arc::downgrade` when the allocation is created; a `Weak` does not keep the string alive and does not
+//! change the strong count).  The canonical line is compared with the Lean model (`c30.name`, `c30.node`).
+//! The oracle is independent of the model: plain value semantics kept by the harness (which text/location
+//! was supplied to which slot, how many live handles share an allocation) — "count = number of live
+//! handles", "0 after the last drop", "text/location read back = supplied", "== and hash look at the text
+//! only", "a mutation is seen through the mutated handle only".
+//! The same kind of histories is then split across real threads (final accounting only).
+use crate::util::*;
+use apollo_compiler::ast;
+use apollo_compiler::parser::{FileId, SourceSpan};
+use apollo_compiler::{Name, Node};
+use std::collections::hash_map::DefaultHasher;
+use std::collections::HashMap;
+use std::hash::{Hash, Hasher};
+use std::sync::{Arc, Weak};
 
-pub fn run(_ctx: &mut Ctx) {}
+const NONE_ID: u64 = 2;
+const MAX_ID: u64 = (1 << 63) - 1;
+
+// ---------------------------------------------------------------- spans through the public parser
+
+struct Spans {
+    cache: HashMap<(u64, u32, u32), SourceSpan>,
+}
+
+impl Spans {
+    fn new() -> Self {
+        Spans { cache: HashMap::new() }
+    }
+    /// a `SourceSpan` with the given file id, start offset (≥ 1) and length (≥ 1): the location of a field
+    /// name in a document parsed with the file-id counter preset
+    fn get(&mut self, fid: u64, start: u32, len: u32) -> SourceSpan {
+        assert!(start >= 1 && len >= 1 && fid >= 1 && fid <= MAX_ID);
+        *self.cache.entry((fid, start, len)).or_insert_with(|| {
+            FileId::verif_set_next(fid);
+            let src = format!("{{{}{}}}", " ".repeat(start as usize - 1), "a".repeat(len as usize));
+            let doc = match ast::Document::parse(src, "s.graphql") {
+                Ok(d) => d,
+                Err(e) => e.partial,
+            };
+            FileId::reset();
+            let mut found = None;
+            for def in &doc.definitions {
+                if let ast::Definition::OperationDefinition(op) = def {
+                    if let Some(ast::Selection::Field(f)) = op.selection_set.first() {
+                        // the field node spans exactly its name; `Node::location` also works for FileId::NONE
+                        found = f.location();
+                    }
+                }
+            }
+            let span = found.expect("harness: no span");
+            assert_eq!(
+                (span.file_id().verif_raw(), span.offset(), span.node_len()),
+                (fid, start as usize, len as usize),
+                "harness: span factory"
+            );
+            span
+        })
+    }
+}
+
+type Loc = (u64, usize, usize);
+
+fn loc_of(s: Option<SourceSpan>) -> Option<Loc> {
+    s.map(|s| (s.file_id().verif_raw(), s.offset(), s.node_len()))
+}
+
+fn loc_str(l: Option<Loc>) -> String {
+    match l {
+        Some((f, s, n)) => format!("{f}:{s}:{n}"),
+        None => "~".to_string(),
+    }
+}
+
+fn cps(s: &str) -> String {
+    s.chars().map(|c| (c as u32).to_string()).collect::<Vec<_>>().join(".")
+}
+
+fn hash_of<T: Hash + ?Sized>(x: &T) -> u64 {
+    let mut h = DefaultHasher::new();
+    x.hash(&mut h);
+    h.finish()
+}
+
+/// GraphQL Name syntax, written from the specification (`/[_A-Za-z][_0-9A-Za-z]*/`)
+fn spec_valid_name(s: &str) -> bool {
+    let mut it = s.chars();
+    match it.next() {
+        Some(c) if c == '_' || c.is_ascii_alphabetic() => it.all(|c| c == '_' || c.is_ascii_alphanumeric()),
+        _ => false,
+    }
+}
+
+// ---------------------------------------------------------------- name histories
+
+const STATICS: [&str; 10] =
+    ["a", "b", "Query", "__typename", "x_1", "", "é", "not a name", "9x", "long_static_name_with_many_characters_0123456789"];
+const TEXTS: [&str; 12] = ["a", "b", "Query", "x_1", "_", "é", "a b", "", "9x", "TypeName", "a", "日本"];
+
+#[derive(Clone, Debug)]
+enum NOp {
+    NewName(usize, String),
+    NewChecked(usize, String),
+    NewStatic(usize, usize), // index into STATICS
+    NewArc(usize, String),
+    FromArc(usize, usize),
+    TryFromArc(usize, usize),
+    Clone(usize, usize),
+    Drop(usize),
+    WithLoc(usize, u64, u32, u32),
+    ToClonedArc(usize, usize),
+    IntoArc(usize, usize),
+}
+
+impl NOp {
+    fn enc(&self) -> String {
+        match self {
+            NOp::NewName(d, t) => format!("nn,{d},{}", cps(t)),
+            NOp::NewChecked(d, t) => format!("nc,{d},{}", cps(t)),
+            NOp::NewStatic(d, i) => format!("ns,{d},{}", cps(STATICS[*i])),
+            NOp::NewArc(d, t) => format!("na,{d},{}", cps(t)),
+            NOp::FromArc(d, s) => format!("fa,{d},{s}"),
+            NOp::TryFromArc(d, s) => format!("tf,{d},{s}"),
+            NOp::Clone(d, s) => format!("cl,{d},{s}"),
+            NOp::Drop(s) => format!("dr,{s}"),
+            NOp::WithLoc(s, f, st, l) => format!("wl,{s},{f},{st},{l}"),
+            NOp::ToClonedArc(d, s) => format!("tc,{d},{s}"),
+            NOp::IntoArc(d, s) => format!("ia,{d},{s}"),
+        }
+    }
+}
+
+enum HS {
+    Empty,
+    Name { n: Name, cell: Option<usize>, text: String, loc: Option<Loc> },
+    Arc { a: Arc<str>, cell: usize, text: String },
+}
+
+impl HS {
+    fn cell(&self) -> Option<usize> {
+        match self {
+            HS::Empty => None,
+            HS::Name { cell, .. } => *cell,
+            HS::Arc { cell, .. } => Some(*cell),
+        }
+    }
+    fn is_empty(&self) -> bool {
+        matches!(self, HS::Empty)
+    }
+}
+
+struct NameWorld {
+    slots: Vec<HS>,
+    /// one witness per string allocation created in this history
+    wit: Vec<Weak<str>>,
+    fails: Vec<(String, String)>,
+}
+
+impl NameWorld {
+    fn new(pool: usize) -> Self {
+        NameWorld { slots: (0..pool).map(|_| HS::Empty).collect(), wit: vec![], fails: vec![] }
+    }
+    fn fail(&mut self, key: &str, what: String) {
+        if self.fails.len() < 4 {
+            self.fails.push((key.to_string(), what));
+        }
+    }
+    fn free(&self, i: usize) -> bool {
+        i < self.slots.len() && self.slots[i].is_empty()
+    }
+    fn take(&mut self, i: usize) -> HS {
+        std::mem::replace(&mut self.slots[i], HS::Empty)
+    }
+    /// a fresh heap name: take the witness through `to_cloned_arc`
+    fn adopt_new_heap_name(&mut self, dst: usize, n: Name, text: &str) {
+        let cell = match n.to_cloned_arc() {
+            Some(a) => {
+                self.wit.push(Arc::downgrade(&a));
+                Some(self.wit.len() - 1)
+            }
+            None => {
+                self.fail("name-static-flag", format!("to_cloned_arc() is None for a name created from &str {text:?}"));
+                None
+            }
+        };
+        self.slots[dst] = HS::Name { n, cell, text: text.to_string(), loc: None };
+    }
+
+    fn step(&mut self, op: &NOp, spans: &mut Spans) -> &'static str {
+        match op {
+            NOp::NewName(d, t) => {
+                if !self.free(*d) { return "skip"; }
+                let n = Name::new_unchecked(t);
+                self.adopt_new_heap_name(*d, n, t);
+                "ok"
+            }
+            NOp::NewChecked(d, t) => {
+                if !self.free(*d) { return "skip"; }
+                match Name::new(t) {
+                    Ok(n) => {
+                        if !spec_valid_name(t) { self.fail("name-validity", format!("Name::new accepted {t:?}")); }
+                        self.adopt_new_heap_name(*d, n, t);
+                        "ok"
+                    }
+                    Err(_) => {
+                        if spec_valid_name(t) { self.fail("name-validity", format!("Name::new rejected {t:?}")); }
+                        "err"
+                    }
+                }
+            }
+            NOp::NewStatic(d, i) => {
+                if !self.free(*d) { return "skip"; }
+                let n = Name::new_static_unchecked(STATICS[*i]);
+                self.slots[*d] = HS::Name { n, cell: None, text: STATICS[*i].to_string(), loc: None };
+                "ok"
+            }
+            NOp::NewArc(d, t) => {
+                if !self.free(*d) { return "skip"; }
+                let a: Arc<str> = Arc::from(t.as_str());
+                self.wit.push(Arc::downgrade(&a));
+                self.slots[*d] = HS::Arc { a, cell: self.wit.len() - 1, text: t.clone() };
+                "ok"
+            }
+            NOp::FromArc(d, s) | NOp::TryFromArc(d, s) => {
+                if *s >= self.slots.len() || !matches!(self.slots[*s], HS::Arc { .. }) || !self.free(*d) { return "skip"; }
+                let HS::Arc { a, cell, text } = self.take(*s) else { unreachable!() };
+                if matches!(op, NOp::FromArc(..)) {
+                    let n = Name::from_arc_unchecked(a);
+                    self.slots[*d] = HS::Name { n, cell: Some(cell), text, loc: None };
+                    "ok"
+                } else {
+                    match Name::try_from(a) {
+                        Ok(n) => {
+                            if !spec_valid_name(&text) { self.fail("name-validity", format!("Name::try_from(Arc) accepted {text:?}")); }
+                            self.slots[*d] = HS::Name { n, cell: Some(cell), text, loc: None };
+                            "ok"
+                        }
+                        Err(_) => {
+                            if spec_valid_name(&text) { self.fail("name-validity", format!("Name::try_from(Arc) rejected {text:?}")); }
+                            "err"
+                        }
+                    }
+                }
+            }
+            NOp::Clone(d, s) => {
+                if !self.free(*d) || *s >= self.slots.len() { return "skip"; }
+                let new = match &self.slots[*s] {
+                    HS::Empty => return "skip",
+                    HS::Name { n, cell, text, loc } => HS::Name { n: n.clone(), cell: *cell, text: text.clone(), loc: *loc },
+                    HS::Arc { a, cell, text } => HS::Arc { a: a.clone(), cell: *cell, text: text.clone() },
+                };
+                self.slots[*d] = new;
+                "ok"
+            }
+            NOp::Drop(s) => {
+                if *s >= self.slots.len() || self.slots[*s].is_empty() { return "skip"; }
+                drop(self.take(*s));
+                "ok"
+            }
+            NOp::WithLoc(s, fid, start, len) => {
+                if *s >= self.slots.len() || !matches!(self.slots[*s], HS::Name { .. }) { return "skip"; }
+                let HS::Name { n, cell, text, .. } = self.take(*s) else { unreachable!() };
+                let span = spans.get(*fid, *start, *len);
+                match catch(move || n.with_location(span)) {
+                    Ok(n2) => {
+                        let loc = if *fid == NONE_ID { None } else { Some((*fid, *start as usize, *len as usize)) };
+                        self.slots[*s] = HS::Name { n: n2, cell, text, loc };
+                        "ok"
+                    }
+                    Err(_) => {
+                        // only the length debug assertion may fire; the name is dropped by the unwinding
+                        if *len as usize == text.len() {
+                            self.fail("name-panic", format!("with_location panicked for a span of the name's own length ({text:?})"));
+                        }
+                        "PANIC"
+                    }
+                }
+            }
+            NOp::ToClonedArc(d, s) => {
+                if !self.free(*d) || *s >= self.slots.len() { return "skip"; }
+                let HS::Name { n, cell, text, .. } = &self.slots[*s] else { return "skip" };
+                match n.to_cloned_arc() {
+                    Some(a) => match cell {
+                        Some(c) => {
+                            let new = HS::Arc { a, cell: *c, text: text.clone() };
+                            self.slots[*d] = new;
+                            "ok"
+                        }
+                        None => {
+                            let t = text.clone();
+                            self.fail("name-static-flag", format!("to_cloned_arc() is Some for the static name {t:?}"));
+                            "ok"
+                        }
+                    },
+                    None => "none",
+                }
+            }
+            NOp::IntoArc(d, s) => {
+                if !self.free(*d) || *s >= self.slots.len() || !matches!(self.slots[*s], HS::Name { .. }) { return "skip"; }
+                let HS::Name { n, cell, text, .. } = self.take(*s) else { unreachable!() };
+                let a: Arc<str> = n.into();
+                let cell = match cell {
+                    Some(c) => c,
+                    None => {
+                        self.wit.push(Arc::downgrade(&a));
+                        self.wit.len() - 1
+                    }
+                };
+                self.slots[*d] = HS::Arc { a, cell, text };
+                "ok"
+            }
+        }
+    }
+
+    /// observe every slot through the public API; evaluate the oracle; return the canonical line
+    fn observe(&mut self, res: &str) -> String {
+        let mut out = String::from(res);
+        // expected number of live handles per allocation (harness bookkeeping only)
+        let mut expect = vec![0usize; self.wit.len()];
+        for s in &self.slots {
+            if let Some(c) = s.cell() { expect[c] += 1; }
+        }
+        let mut fails: Vec<(String, String)> = vec![];
+        for (i, s) in self.slots.iter().enumerate() {
+            out.push(';');
+            match s {
+                HS::Empty => out.push('-'),
+                HS::Name { n, cell, text, loc } => {
+                    let got = n.as_str().to_string();
+                    if &got != text { fails.push(("name-text".into(), format!("slot {i}: as_str() = {got:?}, supplied {text:?}"))); }
+                    if n.len() != text.len() { fails.push(("name-text".into(), format!("slot {i}: len() = {}, supplied text has {} bytes", n.len(), text.len()))); }
+                    let l = loc_of(n.location());
+                    if l != *loc { fails.push(("name-location".into(), format!("slot {i}: location() = {}, supplied {}", loc_str(l), loc_str(*loc)))); }
+                    let st = n.as_static_str();
+                    if st.is_some() != cell.is_none() {
+                        fails.push(("name-static-flag".into(), format!("slot {i} ({text:?}): as_static_str().is_some() = {}, created static = {}", st.is_some(), cell.is_none())));
+                    }
+                    if let Some(s) = st { if s != text { fails.push(("name-text".into(), format!("slot {i}: as_static_str() = {s:?}, supplied {text:?}"))); } }
+                    let tca = n.to_cloned_arc();
+                    if tca.is_some() == st.is_some() {
+                        fails.push(("name-static-flag".into(), format!("slot {i} ({text:?}): to_cloned_arc and as_static_str are both {}", if st.is_some() { "Some" } else { "None" })));
+                    }
+                    if let Some(a) = &tca { if &**a != text.as_str() { fails.push(("name-text".into(), format!("slot {i}: to_cloned_arc() = {:?}, supplied {text:?}", &**a))); } }
+                    drop(tca);
+                    let cnt = match cell { Some(c) => self.wit[*c].strong_count().to_string(), None => "_".to_string() };
+                    out.push_str(&format!("N{}/{}/{}/{}", cps(&got), loc_str(l), if st.is_some() { "S" } else { "H" }, cnt));
+                }
+                HS::Arc { a, cell, text } => {
+                    if &**a != text.as_str() { fails.push(("name-text".into(), format!("slot {i}: Arc<str> reads {:?}, supplied {text:?}", &**a))); }
+                    out.push_str(&format!("A{}/{}", cps(a), self.wit[*cell].strong_count()));
+                }
+            }
+        }
+        for (c, w) in self.wit.iter().enumerate() {
+            let got = w.strong_count();
+            if got != expect[c] {
+                let key = if expect[c] == 0 { "name-leak" } else if got < expect[c] { "name-premature-free" } else { "name-count-mismatch" };
+                fails.push((key.into(), format!("allocation #{c}: strong count {got}, live handles {}", expect[c])));
+            }
+        }
+        // equality / hashing look at the text only
+        for (i, a) in self.slots.iter().enumerate() {
+            let HS::Name { n: na, text: ta, .. } = a else { continue };
+            if hash_of(na) != hash_of(ta.as_str()) { fails.push(("name-eq-hash".into(), format!("slot {i}: hash differs from the hash of its text {ta:?}"))); }
+            if *na != *ta.as_str() { fails.push(("name-eq-hash".into(), format!("slot {i}: name != its text {ta:?}"))); }
+            for (j, b) in self.slots.iter().enumerate().skip(i + 1) {
+                let HS::Name { n: nb, text: tb, .. } = b else { continue };
+                if (na == nb) != (ta == tb) { fails.push(("name-eq-hash".into(), format!("slots {i},{j}: == is {}, texts {ta:?} {tb:?}", na == nb))); }
+                if ta == tb && hash_of(na) != hash_of(nb) { fails.push(("name-eq-hash".into(), format!("slots {i},{j}: equal names hash differently ({ta:?})"))); }
+                if na.cmp(nb) != ta.as_str().cmp(tb.as_str()) { fails.push(("name-eq-hash".into(), format!("slots {i},{j}: cmp differs from text order"))); }
+            }
+        }
+        for (k, w) in fails { self.fail(&k, w); }
+        out
+    }
+}
+
+/// run one history on the real types; emits the correspondence case and the oracle failures
+fn run_name_history(ctx: &mut Ctx, spans: &mut Spans, pool: usize, ops: &[NOp]) {
+    // every history ends by dropping every slot: the last observation is the leak check
+    let mut all: Vec<NOp> = ops.to_vec();
+    for i in 0..pool { all.push(NOp::Drop(i)); }
+    let mut w = NameWorld::new(pool);
+    let mut steps: Vec<String> = vec![];
+    let mut fields: Vec<String> = vec![pool.to_string()];
+    let mut nontrivial = false;
+    let mut poisoned = false;
+    for op in &all {
+        fields.push(op.enc());
+        let before = w.fails.len();
+        let res = match catch(|| w.step(op, spans)) {
+            Ok(r) => r,
+            Err(m) => {
+                w.fail("name-panic", format!("{} panicked: {m}", op.enc()));
+                "PANIC"
+            }
+        };
+        if res != "skip" { ctx.stat(&format!("name_op:{}:{}", &op.enc()[..2], res)); }
+        let line = w.observe(res);
+        if w.wit.iter().any(|x| x.strong_count() >= 2) { nontrivial = true; }
+        steps.push(line);
+        if w.fails.len() > before {
+            let input = fields.join(" ");
+            for (k, what) in w.fails[before..].to_vec() { ctx.fail(&k, &input, &what); }
+            // the property is already violated: going on (or releasing these values) could run into real
+            // memory corruption, so the history stops here and its values are leaked on purpose
+            poisoned = true;
+            break;
+        }
+    }
+    if poisoned { std::mem::forget(w); ctx.stat("name_histories_stopped_at_failure"); } else { drop(w); }
+    if nontrivial { ctx.nontrivial(&fields.join(" ")); }
+    ctx.stat("name_histories");
+    ctx.case("c30.name", &fields, &steps.join("|"));
+}
+
+fn gen_name_op(rng: &mut Rng, w_empty: &[bool], kinds: &[u8], pool: usize) -> NOp {
+    // kinds: 0 empty, 1 name, 2 arc (the generator's own guess, only used to bias choices)
+    let pick_where = |rng: &mut Rng, want: &dyn Fn(usize) -> bool| -> usize {
+        let c: Vec<usize> = (0..pool).filter(|i| want(*i)).collect();
+        if c.is_empty() || rng.chance(1, 12) { rng.below(pool + 1) } else { c[rng.below(c.len())] }
+    };
+    let dst = pick_where(rng, &|i| w_empty[i]);
+    let name_src = pick_where(rng, &|i| kinds[i] == 1);
+    let arc_src = pick_where(rng, &|i| kinds[i] == 2);
+    let any_src = pick_where(rng, &|i| kinds[i] != 0);
+    let text = rng.pick(&TEXTS).to_string();
+    match rng.below(100) {
+        0..=9 => NOp::NewName(dst, text),
+        10..=14 => NOp::NewChecked(dst, text),
+        15..=22 => NOp::NewStatic(dst, rng.below(STATICS.len())),
+        23..=28 => NOp::NewArc(dst, text),
+        29..=34 => NOp::FromArc(dst, arc_src),
+        35..=38 => NOp::TryFromArc(dst, arc_src),
+        39..=56 => NOp::Clone(dst, any_src),
+        57..=70 => NOp::Drop(any_src),
+        71..=82 => NOp::WithLoc(name_src, 0, 0, 0), // completed by the caller (needs the name's length)
+        83..=90 => NOp::ToClonedArc(dst, name_src),
+        _ => NOp::IntoArc(dst, name_src),
+    }
+}
+
+fn gen_fid(rng: &mut Rng) -> u64 {
+    match rng.below(10) {
+        0 => 1,
+        1 => NONE_ID,
+        2 => MAX_ID,
+        3 => MAX_ID - 1,
+        4 => (1u64 << 32) + 5,
+        5 => 1u64 << 62,
+        6 => 1 + (rng.next() >> (1 + rng.below(62) as u32)),
+        _ => 3 + rng.below(6) as u64,
+    }
+}
+
+/// a random history; the generator tracks (only as a guess, to aim its choices) what each slot holds
+fn gen_name_history(rng: &mut Rng, pool: usize, len: usize) -> Vec<NOp> {
+    let mut kinds = vec![0u8; pool];
+    let mut lens = vec![0usize; pool];
+    let mut ops = vec![];
+    for _ in 0..len {
+        let empty: Vec<bool> = kinds.iter().map(|k| *k == 0).collect();
+        let mut op = gen_name_op(rng, &empty, &kinds, pool);
+        if let NOp::WithLoc(s, ..) = op {
+            let l = if s < pool { lens[s] } else { 1 };
+            let l = if rng.chance(1, 25) || l == 0 { 1 + rng.below(5) } else { l };
+            let span_max = if rng.chance(1, 6) { 100_000 } else { 40 };
+            let fid = gen_fid(rng);
+            op = NOp::WithLoc(s, fid, 1 + rng.below(span_max) as u32, l as u32);
+        }
+        // follow the intended effect (approximately; skips are decided by the executor)
+        let ok = |d: usize| d < pool && kinds[d] == 0;
+        match &op {
+            NOp::NewName(d, t) | NOp::NewChecked(d, t) => if ok(*d) && (matches!(op, NOp::NewName(..)) || spec_valid_name(t)) { kinds[*d] = 1; lens[*d] = t.len(); },
+            NOp::NewStatic(d, i) => if ok(*d) { kinds[*d] = 1; lens[*d] = STATICS[*i].len(); },
+            NOp::NewArc(d, t) => if ok(*d) { kinds[*d] = 2; lens[*d] = t.len(); },
+            NOp::FromArc(d, s) | NOp::TryFromArc(d, s) => if ok(*d) && *s < pool && kinds[*s] == 2 { kinds[*s] = 0; kinds[*d] = 1; lens[*d] = lens[*s]; },
+            NOp::Clone(d, s) => if ok(*d) && *s < pool && kinds[*s] != 0 { kinds[*d] = kinds[*s]; lens[*d] = lens[*s]; },
+            NOp::Drop(s) => if *s < pool { kinds[*s] = 0; },
+            NOp::WithLoc(s, _, _, l) => if *s < pool && kinds[*s] == 1 && *l as usize != lens[*s] { kinds[*s] = 0; },
+            NOp::ToClonedArc(d, s) => if ok(*d) && *s < pool && kinds[*s] == 1 { kinds[*d] = 2; lens[*d] = lens[*s]; },
+            NOp::IntoArc(d, s) => if ok(*d) && *s < pool && kinds[*s] == 1 { kinds[*s] = 0; kinds[*d] = 2; lens[*d] = lens[*s]; },
+        }
+        ops.push(op);
+    }
+    ops
+}
+
+fn fixed_name_histories() -> Vec<(usize, Vec<NOp>)> {
+    use NOp::*;
+    let s = |x: &str| x.to_string();
+    vec![
+        (3, vec![NewName(0, s("a")), Clone(1, 0), WithLoc(1, 7, 4, 1), ToClonedArc(2, 1), Drop(0), IntoArc(0, 1), Drop(0), Drop(2)]),
+        (3, vec![NewStatic(0, 2), Clone(1, 0), WithLoc(1, MAX_ID, 1, 5), ToClonedArc(2, 1), IntoArc(2, 1), Clone(1, 2), FromArc(1, 2), Drop(0)]),
+        (4, vec![NewArc(0, s("Query")), Clone(1, 0), FromArc(2, 0), TryFromArc(3, 1), Clone(0, 3), WithLoc(0, 1, 9, 5), WithLoc(3, NONE_ID, 2, 5), Drop(2), Drop(3), IntoArc(1, 0)]),
+        (3, vec![NewArc(0, s("not valid")), Clone(1, 0), TryFromArc(2, 0), TryFromArc(2, 1)]),
+        (3, vec![NewName(0, s("abc")), Clone(1, 0), WithLoc(0, 5, 3, 2), Clone(2, 1), Drop(1), Drop(2)]),
+        (2, vec![NewChecked(0, s("9x")), NewChecked(0, s("é")), NewChecked(0, s("ok_1")), NewName(1, s("")), Clone(0, 1), IntoArc(0, 1)]),
+        (3, vec![NewStatic(0, 5), IntoArc(1, 0), FromArc(0, 1), ToClonedArc(2, 0), Clone(1, 0), Drop(0), Drop(1), Drop(2)]),
+        (5, vec![NewName(0, s("日本")), WithLoc(0, 1u64 << 62, 100_000, 6), Clone(1, 0), Clone(2, 1), Clone(3, 2), Clone(4, 3), Drop(0), IntoArc(0, 2), Drop(1), FromArc(1, 0), Drop(3), Drop(4), Drop(1)]),
+    ]
+}
+
+/// every history of length ≤ k over a reduced alphabet on two slots
+fn exhaustive_name_histories(k: usize, mut f: impl FnMut(&[NOp])) {
+    use NOp::*;
+    let a = "a".to_string();
+    let alphabet: Vec<NOp> = vec![
+        NewName(0, a.clone()), NewStatic(0, 0), NewArc(1, a.clone()), Clone(1, 0), Clone(0, 1), Drop(0), Drop(1),
+        WithLoc(0, 3, 1, 1), WithLoc(1, MAX_ID, 2, 1), ToClonedArc(1, 0), IntoArc(1, 0), IntoArc(0, 1), FromArc(0, 1), TryFromArc(0, 1),
+    ];
+    let mut idx = vec![0usize; k];
+    loop {
+        let h: Vec<NOp> = idx.iter().map(|i| alphabet[*i].clone()).collect();
+        f(&h);
+        let mut p = k;
+        loop {
+            if p == 0 { return; }
+            p -= 1;
+            if idx[p] + 1 < alphabet.len() { idx[p] += 1; for j in p + 1..k { idx[j] = 0; } break; }
+        }
+    }
+}
+
+// ---------------------------------------------------------------- node histories
+
+#[derive(Clone)]
+struct Probe {
+    v: u64,
+    live: Arc<()>,
+}
+impl PartialEq for Probe {
+    fn eq(&self, o: &Self) -> bool { self.v == o.v }
+}
+impl Eq for Probe {}
+impl Hash for Probe {
+    fn hash<H: Hasher>(&self, h: &mut H) { self.v.hash(h) }
+}
+
+#[derive(Clone, Debug)]
+enum DOp {
+    New(usize, u64, Option<(u64, u32, u32)>),
+    Clone(usize, usize),
+    Drop(usize),
+    MakeMut(usize, u64),
+    GetMut(usize, u64),
+    SameLoc(usize, usize, u64),
+}
+
+impl DOp {
+    fn enc(&self) -> String {
+        match self {
+            DOp::New(d, v, Some((f, s, l))) => format!("nw,{d},{v},{f},{s},{l}"),
+            DOp::New(d, v, None) => format!("nw,{d},{v},0,0,0"),
+            DOp::Clone(d, s) => format!("cl,{d},{s}"),
+            DOp::Drop(s) => format!("dr,{s}"),
+            DOp::MakeMut(s, v) => format!("mm,{s},{v}"),
+            DOp::GetMut(s, v) => format!("gm,{s},{v}"),
+            DOp::SameLoc(d, s, v) => format!("sl,{d},{s},{v}"),
+        }
+    }
+}
+
+struct NodeWorld {
+    slots: Vec<Option<Node<Probe>>>,
+    /// value semantics kept by the harness: what each slot must read
+    shadow: Vec<Option<(u64, Option<Loc>)>>,
+    live: Arc<()>,
+    fails: Vec<(String, String)>,
+}
+
+impl NodeWorld {
+    fn new(pool: usize) -> Self {
+        NodeWorld { slots: (0..pool).map(|_| None).collect(), shadow: vec![None; pool], live: Arc::new(()), fails: vec![] }
+    }
+    fn fail(&mut self, key: &str, what: String) {
+        if self.fails.len() < 4 { self.fails.push((key.to_string(), what)); }
+    }
+    fn free(&self, i: usize) -> bool { i < self.slots.len() && self.slots[i].is_none() }
+    fn held(&self, i: usize) -> bool { i < self.slots.len() && self.slots[i].is_some() }
+    fn probe(&self, v: u64) -> Probe { Probe { v, live: self.live.clone() } }
+
+    fn step(&mut self, op: &DOp, spans: &mut Spans) -> &'static str {
+        match op {
+            DOp::New(d, v, loc) => {
+                if !self.free(*d) { return "skip"; }
+                let p = self.probe(*v);
+                self.slots[*d] = Some(match loc {
+                    Some((f, s, l)) => Node::new_parsed(p, spans.get(*f, *s, *l)),
+                    None => Node::new(p),
+                });
+                self.shadow[*d] = Some((*v, loc.map(|(f, s, l)| (f, s as usize, l as usize))));
+                "ok"
+            }
+            DOp::Clone(d, s) => {
+                if !self.free(*d) || !self.held(*s) { return "skip"; }
+                self.slots[*d] = self.slots[*s].clone();
+                self.shadow[*d] = self.shadow[*s];
+                "ok"
+            }
+            DOp::Drop(s) => {
+                if !self.held(*s) { return "skip"; }
+                self.slots[*s] = None;
+                self.shadow[*s] = None;
+                "ok"
+            }
+            DOp::MakeMut(s, v) => {
+                if !self.held(*s) { return "skip"; }
+                let shared = (0..self.slots.len()).any(|j| j != *s && self.held(j) && self.slots[j].as_ref().unwrap().ptr_eq(self.slots[*s].as_ref().unwrap()));
+                self.slots[*s].as_mut().unwrap().make_mut().v = *v;
+                self.shadow[*s].as_mut().unwrap().0 = *v;
+                if shared { "cloned" } else { "ok" }
+            }
+            DOp::GetMut(s, v) => {
+                if !self.held(*s) { return "skip"; }
+                match self.slots[*s].as_mut().unwrap().get_mut() {
+                    Some(r) => {
+                        r.v = *v;
+                        self.shadow[*s].as_mut().unwrap().0 = *v;
+                        "ok"
+                    }
+                    None => "none",
+                }
+            }
+            DOp::SameLoc(d, s, v) => {
+                if !self.free(*d) || !self.held(*s) { return "skip"; }
+                let p = self.probe(*v);
+                let n = self.slots[*s].as_ref().unwrap().same_location(p);
+                self.slots[*d] = Some(n);
+                self.shadow[*d] = Some((*v, self.shadow[*s].unwrap().1));
+                "ok"
+            }
+        }
+    }
+
+    fn observe(&mut self, res: &str) -> String {
+        let mut out = String::from(res);
+        let n = self.slots.len();
+        let mut fails: Vec<(String, String)> = vec![];
+        let mut classes = 0usize;
+        for i in 0..n {
+            out.push(';');
+            if self.slots[i].is_none() { out.push('-'); continue; }
+            let first = (0..n).find(|j| self.held(*j) && self.slots[*j].as_ref().unwrap().ptr_eq(self.slots[i].as_ref().unwrap())).unwrap();
+            if first == i { classes += 1; }
+            let shared = (0..n).any(|j| j != i && self.held(j) && self.slots[j].as_ref().unwrap().ptr_eq(self.slots[i].as_ref().unwrap()));
+            let unique = self.slots[i].as_mut().unwrap().get_mut().is_some();
+            let node = self.slots[i].as_ref().unwrap();
+            let (v, l) = (node.v, loc_of(node.location()));
+            let (sv, sl) = self.shadow[i].unwrap();
+            if v != sv { fails.push(("node-value".into(), format!("slot {i} reads {v}, value semantics say {sv}"))); }
+            if l != sl { fails.push(("node-location".into(), format!("slot {i}: location {} , supplied {}", loc_str(l), loc_str(sl)))); }
+            if unique == shared { fails.push(("node-unique".into(), format!("slot {i}: get_mut().is_some() = {unique} but shares its allocation with another live node = {shared}"))); }
+            out.push_str(&format!("{v}/{}/{first}/{}", loc_str(l), if unique { "u" } else { "s" }));
+        }
+        let live = Arc::strong_count(&self.live) - 1;
+        out.push_str(&format!(";#{live}"));
+        if live != classes {
+            let key = if live > classes { "node-leak" } else { "node-premature-drop" };
+            fails.push((key.into(), format!("{live} values alive, {classes} distinct allocations reachable")));
+        }
+        for i in 0..n {
+            for j in i + 1..n {
+                let (Some(a), Some(b)) = (&self.slots[i], &self.slots[j]) else { continue };
+                let (ta, tb) = (self.shadow[i].unwrap().0, self.shadow[j].unwrap().0);
+                if (a == b) != (ta == tb) { fails.push(("node-eq-hash".into(), format!("slots {i},{j}: == is {}, values {ta} {tb}", a == b))); }
+                if ta == tb && hash_of(a) != hash_of(b) { fails.push(("node-eq-hash".into(), format!("slots {i},{j}: equal nodes hash differently"))); }
+            }
+        }
+        for (k, w) in fails { self.fail(&k, w); }
+        out
+    }
+}
+
+fn run_node_history(ctx: &mut Ctx, spans: &mut Spans, pool: usize, ops: &[DOp]) {
+    let mut all: Vec<DOp> = ops.to_vec();
+    for i in 0..pool { all.push(DOp::Drop(i)); }
+    let mut w = NodeWorld::new(pool);
+    let mut steps = vec![];
+    let mut fields = vec![pool.to_string()];
+    let mut nontrivial = false;
+    for op in &all {
+        fields.push(op.enc());
+        let before = w.fails.len();
+        let res = match catch(|| w.step(op, spans)) {
+            Ok(r) => r,
+            Err(m) => { w.fail("node-panic", format!("{} panicked: {m}", op.enc())); "PANIC" }
+        };
+        if res != "skip" { ctx.stat(&format!("node_op:{}:{}", &op.enc()[..2], res)); }
+        if res == "cloned" { nontrivial = true; }
+        steps.push(w.observe(res));
+        if w.fails.len() > before {
+            let input = fields.join(" ");
+            for (k, what) in w.fails[before..].to_vec() { ctx.fail(&k, &input, &what); }
+        }
+    }
+    if nontrivial { ctx.nontrivial(&fields.join(" ")); }
+    ctx.stat("node_histories");
+    ctx.case("c30.node", &fields, &steps.join("|"));
+}
+
+fn gen_node_history(rng: &mut Rng, pool: usize, len: usize) -> Vec<DOp> {
+    let mut held = vec![false; pool];
+    let mut ops = vec![];
+    for _ in 0..len {
+        let pick = |rng: &mut Rng, want: bool, held: &Vec<bool>| -> usize {
+            let c: Vec<usize> = (0..pool).filter(|i| held[*i] == want).collect();
+            if c.is_empty() || rng.chance(1, 12) { rng.below(pool + 1) } else { c[rng.below(c.len())] }
+        };
+        let dst = pick(rng, false, &held);
+        let src = pick(rng, true, &held);
+        let v = rng.below(4) as u64 + if rng.chance(1, 8) { 1 << 40 } else { 0 };
+        let op = match rng.below(100) {
+            0..=14 => {
+                let loc = if rng.chance(1, 2) { Some((gen_fid(rng), 1 + rng.below(30) as u32, 1 + rng.below(6) as u32)) } else { None };
+                DOp::New(dst, v, loc)
+            }
+            15..=39 => DOp::Clone(dst, src),
+            40..=54 => DOp::Drop(src),
+            55..=79 => DOp::MakeMut(src, v),
+            80..=91 => DOp::GetMut(src, v),
+            _ => DOp::SameLoc(dst, src, v),
+        };
+        match &op {
+            DOp::New(d, ..) => if *d < pool { held[*d] = true; },
+            DOp::Clone(d, s) | DOp::SameLoc(d, s, _) => if *d < pool && *s < pool && held[*s] { held[*d] = true; },
+            DOp::Drop(s) => if *s < pool { held[*s] = false; },
+            _ => {}
+        }
+        ops.push(op);
+    }
+    ops
+}
+
+fn exhaustive_node_histories(k: usize, mut f: impl FnMut(&[DOp])) {
+    use DOp::*;
+    let alphabet: Vec<DOp> = vec![
+        New(0, 1, None), New(1, 2, Some((3, 1, 2))), Clone(1, 0), Clone(0, 1), Clone(2, 0), Drop(0), Drop(1), MakeMut(0, 7), MakeMut(1, 8),
+        GetMut(0, 5), GetMut(2, 6), SameLoc(2, 1, 4),
+    ];
+    let mut idx = vec![0usize; k];
+    loop {
+        let h: Vec<DOp> = idx.iter().map(|i| alphabet[*i].clone()).collect();
+        f(&h);
+        let mut p = k;
+        loop {
+            if p == 0 { return; }
+            p -= 1;
+            if idx[p] + 1 < alphabet.len() { idx[p] += 1; for j in p + 1..k { idx[j] = 0; } break; }
+        }
+    }
+}
+
+// ---------------------------------------------------------------- threads (final accounting only)
+
+/// what a worker does with its private handles; decided up-front from the single PRNG
+#[derive(Clone)]
+enum TOp {
+    CloneShared(usize),  // clone a shared base name (through `&Name`, concurrently with the other threads)
+    CloneOwn(usize),
+    Drop(usize),
+    WithLoc(usize, usize), // own handle index, span index
+    ToArcAndBack(usize),   // to_cloned_arc → from_arc_unchecked → replaces the handle
+    IntoArcAndBack(usize), // Arc::from(name) → Name::from_arc_unchecked
+    Read(usize),
+}
+
+struct Base {
+    name: Name,
+    text: String,
+    wit: Option<Weak<str>>,
+}
+
+fn threads_names(ctx: &mut Ctx, spans: &mut Spans, threads: usize, per: usize) {
+    // shared base names: heap and static, some located
+    let mut base: Vec<Base> = vec![];
+    for i in 0..6 {
+        let text = TEXTS[ctx.rng.below(TEXTS.len())].to_string();
+        if i % 3 == 2 {
+            let k = ctx.rng.below(STATICS.len());
+            base.push(Base { name: Name::new_static_unchecked(STATICS[k]), text: STATICS[k].to_string(), wit: None });
+        } else {
+            let n = Name::new_unchecked(&text);
+            let wit = n.to_cloned_arc().map(|a| Arc::downgrade(&a));
+            base.push(Base { name: n, text, wit });
+        }
+    }
+    // spans by length, made before the threads start (the parser presets a global counter)
+    let mut span_pool: Vec<(SourceSpan, Loc)> = vec![];
+    for b in &base {
+        if b.text.is_empty() { continue; }
+        for _ in 0..2 {
+            let (f, s, l) = (gen_fid(&mut ctx.rng), 1 + ctx.rng.below(50) as u32, b.text.len() as u32);
+            span_pool.push((spans.get(f, s, l), (f, s as usize, l as usize)));
+        }
+    }
+    let plans: Vec<Vec<TOp>> = (0..threads)
+        .map(|_| {
+            (0..per)
+                .map(|_| {
+                    let i = ctx.rng.below(8);
+                    match ctx.rng.below(14) {
+                        0..=3 => TOp::CloneShared(ctx.rng.below(base.len())),
+                        4..=5 => TOp::CloneOwn(i),
+                        6..=8 => TOp::Drop(i),
+                        9 => TOp::WithLoc(i, ctx.rng.below(span_pool.len().max(1))),
+                        10 => TOp::ToArcAndBack(i),
+                        11 => TOp::IntoArcAndBack(i),
+                        _ => TOp::Read(i),
+                    }
+                })
+                .collect()
+        })
+        .collect();
+    // each worker returns (base index, handle) for what it still holds, and the problems it saw
+    let results: Vec<(Vec<(usize, Name)>, Vec<String>)> = std::thread::scope(|sc| {
+        let base = &base;
+        let span_pool = &span_pool;
+        let hs: Vec<_> = plans
+            .iter()
+            .map(|plan| {
+                sc.spawn(move || {
+                    let mut own: Vec<(usize, Name, Option<Loc>)> = vec![];
+                    let mut bad: Vec<String> = vec![];
+                    for op in plan {
+                        // at any time, under any schedule: the count of a shared string is at least the base
+                        // handle plus the handles this thread holds; otherwise stop before memory is at risk
+                        let mut mine = vec![0usize; base.len()];
+                        for (b, _, _) in &own { mine[*b] += 1; }
+                        for (b, m) in mine.iter().enumerate() {
+                            if let Some(w) = &base[b].wit {
+                                let c = w.strong_count();
+                                if c < 1 + m || c > (1 << 40) {
+                                    bad.push(format!("name-premature-free|base name {b}: strong count {c} while this thread alone holds {m} clones and the base is alive"));
+                                }
+                            }
+                        }
+                        if !bad.is_empty() {
+                            std::mem::forget(std::mem::take(&mut own));
+                            bad.push("POISON|".to_string());
+                            break;
+                        }
+                        match op {
+                            TOp::CloneShared(b) => own.push((*b, base[*b].name.clone(), None)),
+                            TOp::CloneOwn(i) => if !own.is_empty() { let k = i % own.len(); let c = (own[k].0, own[k].1.clone(), own[k].2); own.push(c); },
+                            TOp::Drop(i) => if !own.is_empty() { let k = i % own.len(); own.swap_remove(k); },
+                            TOp::WithLoc(i, s) => if !own.is_empty() && !span_pool.is_empty() {
+                                let k = i % own.len();
+                                let (span, loc) = span_pool[s % span_pool.len()];
+                                if loc.2 == base[own[k].0].text.len() {
+                                    let (b, n, _) = own.swap_remove(k);
+                                    own.push((b, n.with_location(span), if loc.0 == NONE_ID { None } else { Some(loc) }));
+                                }
+                            },
+                            TOp::ToArcAndBack(i) => if !own.is_empty() {
+                                let k = i % own.len();
+                                if let Some(a) = own[k].1.to_cloned_arc() {
+                                    let b = own[k].0;
+                                    own[k] = (b, Name::from_arc_unchecked(a), None);
+                                }
+                            },
+                            TOp::IntoArcAndBack(i) => if !own.is_empty() {
+                                let k = i % own.len();
+                                let (b, n, l) = own.swap_remove(k);
+                                if base[b].wit.is_some() {
+                                    let a: Arc<str> = n.into();
+                                    own.push((b, Name::from_arc_unchecked(a), None));
+                                } else {
+                                    own.push((b, n, l)); // a static name would move to a private allocation: keep it
+                                }
+                            },
+                            TOp::Read(i) => if !own.is_empty() {
+                                let k = i % own.len();
+                                let (b, n, loc) = &own[k];
+                                if n.as_str() != base[*b].text { bad.push(format!("name-text|a clone of base name {b} reads {:?}, supplied {:?}", n.as_str(), base[*b].text)); }
+                                if loc_of(n.location()) != *loc { bad.push(format!("name-location|a clone of base name {b}: location {} , supplied {}", loc_str(loc_of(n.location())), loc_str(*loc))); }
+                                if *n != base[*b].name || hash_of(n) != hash_of(&base[*b].name) { bad.push(format!("name-eq-hash|a clone of base name {b} differs from it by ==/hash")); }
+                            },
+                        }
+                    }
+                    (own.into_iter().map(|(b, n, _)| (b, n)).collect::<Vec<_>>(), bad)
+                })
+            })
+            .collect();
+        hs.into_iter().map(|h| h.join().unwrap_or_else(|_| (vec![], vec!["name-panic|a worker thread panicked".to_string()]))).collect()
+    });
+    let desc = format!("{threads} threads x {per} operations on clones of 6 shared names (seed {})", ctx.seed);
+    let mut held: Vec<(usize, Name)> = vec![];
+    let mut poisoned = false;
+    for (own, bad) in results {
+        for b in bad {
+            let (k, w) = b.split_once('|').unwrap();
+            if k == "POISON" { poisoned = true; } else { ctx.fail(k, &desc, w); }
+        }
+        held.extend(own);
+    }
+    if poisoned {
+        // a worker saw a count below the number of live handles: leak everything, touch nothing
+        std::mem::forget(held);
+        std::mem::forget(base);
+        return;
+    }
+    ctx.stat("thread_runs_names");
+    ctx.stat_n("thread_handles_returned", held.len() as u64);
+    // accounting after the join: count = 1 (base) + handles returned
+    for (i, b) in base.iter().enumerate() {
+        let Some(w) = &b.wit else { continue };
+        let expect = 1 + held.iter().filter(|(j, _)| *j == i).count();
+        if w.strong_count() != expect {
+            let key = if w.strong_count() > expect { "name-leak" } else { "name-premature-free" };
+            ctx.fail(key, &desc, &format!("base name {i} ({:?}): strong count {} after the join, live handles {expect}", b.text, w.strong_count()));
+        }
+    }
+    for (j, n) in &held {
+        if n.as_str() != base[*j].text { ctx.fail("name-text", &desc, &format!("a returned clone of base name {j} reads {:?}", n.as_str())); }
+    }
+    drop(held);
+    for (i, b) in base.iter().enumerate() {
+        if let Some(w) = &b.wit {
+            if w.strong_count() != 1 { ctx.fail("name-leak", &desc, &format!("base name {i}: strong count {} with only the base handle alive", w.strong_count())); }
+        }
+    }
+    let wits: Vec<Weak<str>> = base.iter().filter_map(|b| b.wit.clone()).collect();
+    drop(base);
+    for w in wits {
+        if w.strong_count() != 0 { ctx.fail("name-leak", &desc, &format!("strong count {} after every handle was dropped", w.strong_count())); }
+    }
+}
+
+fn threads_nodes(ctx: &mut Ctx, threads: usize, per: usize) {
+    let live = Arc::new(());
+    let base: Vec<Node<Probe>> = (0..4).map(|i| Node::new(Probe { v: 100 + i, live: live.clone() })).collect();
+    let plans: Vec<Vec<(usize, usize)>> = (0..threads).map(|_| (0..per).map(|_| (ctx.rng.below(5), ctx.rng.below(base.len()))).collect()).collect();
+    let bad: Vec<String> = std::thread::scope(|sc| {
+        let base = &base;
+        let hs: Vec<_> = plans.iter().enumerate().map(|(t, plan)| {
+            sc.spawn(move || {
+                let mut bad = vec![];
+                let mut own: Vec<(Node<Probe>, u64)> = vec![];
+                for (k, (what, b)) in plan.iter().enumerate() {
+                    match what {
+                        0 | 1 => own.push((base[*b].clone(), 100 + *b as u64)),
+                        2 => if !own.is_empty() {
+                            // copy-on-write: mutate one handle, its own earlier clone must keep the old value
+                            let i = k % own.len();
+                            let keep = own[i].0.clone();
+                            let old = own[i].1;
+                            let v = (t as u64 + 1) * 1_000_000 + k as u64;
+                            own[i].0.make_mut().v = v;
+                            own[i].1 = v;
+                            if keep.v != old { bad.push(format!("node-value|thread {t}: a clone read {} after make_mut on the other handle, expected {old}", keep.v)); }
+                            if own[i].0.v != v { bad.push(format!("node-value|thread {t}: make_mut lost the write")); }
+                            if keep.ptr_eq(&own[i].0) { bad.push(format!("node-unique|thread {t}: still ptr_eq after make_mut on a shared node")); }
+                        },
+                        3 => if !own.is_empty() { let i = k % own.len(); own.swap_remove(i); },
+                        _ => for (n, v) in &own { if n.v != *v { bad.push(format!("node-value|thread {t}: a private handle reads {}, expected {v}", n.v)); } },
+                    }
+                }
+                bad
+            })
+        }).collect();
+        hs.into_iter().flat_map(|h| h.join().unwrap_or_else(|_| vec!["node-panic|a worker thread panicked".to_string()])).collect()
+    });
+    let desc = format!("{threads} threads x {per} node operations on clones of 4 shared nodes (seed {})", ctx.seed);
+    for b in bad { let (k, w) = b.split_once('|').unwrap(); ctx.fail(k, &desc, w); }
+    for (i, n) in base.iter().enumerate() {
+        if n.v != 100 + i as u64 { ctx.fail("node-value", &desc, &format!("shared node {i} reads {} after the workers mutated their clones", n.v)); }
+    }
+    let mut base = base;
+    for (i, n) in base.iter_mut().enumerate() {
+        if n.get_mut().is_none() { ctx.fail("node-leak", &desc, &format!("shared node {i} is not unique after every clone was dropped")); }
+    }
+    if Arc::strong_count(&live) != 1 + base.len() { ctx.fail("node-leak", &desc, &format!("{} values alive, {} nodes", Arc::strong_count(&live) - 1, base.len())); }
+    drop(base);
+    if Arc::strong_count(&live) != 1 { ctx.fail("node-leak", &desc, &format!("{} values alive after every node was dropped", Arc::strong_count(&live) - 1)); }
+    ctx.stat("thread_runs_nodes");
+}
+
+pub fn run(ctx: &mut Ctx) {
+    let mut spans = Spans::new();
+    // regression / hand-written histories first
+    for (pool, h) in fixed_name_histories() { run_name_history(ctx, &mut spans, pool, &h); }
+    // exhaustive small histories
+    let k = if ctx.thorough { 4 } else { 3 };
+    for len in 1..=k {
+        let mut all: Vec<Vec<NOp>> = vec![];
+        exhaustive_name_histories(len, |h| all.push(h.to_vec()));
+        for h in all { run_name_history(ctx, &mut spans, 2, &h); }
+        let mut alln: Vec<Vec<DOp>> = vec![];
+        exhaustive_node_histories(len, |h| alln.push(h.to_vec()));
+        for h in alln { run_node_history(ctx, &mut spans, 3, &h); }
+    }
+    // random histories
+    let n = if ctx.thorough { 150_000 } else { 15_000 };
+    for _ in 0..n {
+        let pool = 2 + ctx.rng.below(5);
+        let max_len = if ctx.rng.chance(1, 10) { 120 } else { 36 };
+        let len = 4 + ctx.rng.below(max_len);
+        let h = gen_name_history(&mut ctx.rng, pool, len);
+        run_name_history(ctx, &mut spans, pool, &h);
+    }
+    for _ in 0..n / 2 {
+        let pool = 2 + ctx.rng.below(5);
+        let len = 4 + ctx.rng.below(40);
+        let h = gen_node_history(&mut ctx.rng, pool, len);
+        run_node_history(ctx, &mut spans, pool, &h);
+    }
+    // threads
+    let reps = if ctx.thorough { 60 } else { 10 };
+    for r in 0..reps {
+        let threads = if ctx.thorough { [2, 3, 4, 8][r % 4] } else { [2, 3, 4][r % 3] };
+        threads_names(ctx, &mut spans, threads, if ctx.thorough { 4000 } else { 1500 });
+        threads_nodes(ctx, threads, if ctx.thorough { 3000 } else { 1000 });
+    }
+    FileId::reset();
+}
